@@ -9,7 +9,16 @@ from harness.gen import c01decl as G
 from harness.impl import c01types as I
 
 IMPORTS = "From Coq Require Import ZArith.\nFrom Ford Require Import Base.Str Base.StrX Sem.TypeSpec Sem.DeclSpec Corr.C01types."
-THEOREMS = []
+THEOREMS = [
+    "C01_type_spellings", "C01_character_spellings", "C01_type_spellings_refuted", "C01_type_spellings_refuted_double",
+    "C01_type_spellings_refuted_star", "C01_character_spellings_refuted_len", "C01_type_spellings_refuted_kind_comma",
+    "C01_case_invariance", "C01_case_invariance_refuted_attribute", "C01_attr_stmt_equiv",
+    "C01_attr_stmt_equiv_refuted_optional", "C01_attr_stmt_equiv_refuted_parameter",
+    "C01_attr_stmt_equiv_refuted_dimension", "C01_attr_stmt_equiv_refuted_intent_in_out",
+    "C01_attr_stmt_equiv_refuted_result", "C01_prefix_refuted_case", "C01_prefix_refuted_keyword", "C01_argument_order",
+]
+PROPS_FILE = "theories/Props/C01types.v"
+BUILD_TARGETS = ["theories/Corr/C01types.vo", "theories/Props/C01types.vo"]
 REGIONS = {1: "double-without-blank", 2: "blank-after-star", 3: "len-expression-truncated", 4: "kind-comma-truncated",
            5: "attribute-text-spelling", 7: "dimension-attribute-vs-array-spec", 8: "optional-statement",
            9: "parameter-statement", 10: "dimension-attribute-vs-array-spec", 11: "intent-in-out-statement",
@@ -192,7 +201,7 @@ def run_units(chk, judge, P, stats, seen, pending):
     quick = chk.tier == "quick"
     # (3) raw units: hand-written shapes and edited copies
     raws = list(RAW_UNITS)
-    for _ in range(120 if quick else 3000):
+    for _ in range(300 if quick else 4000):
         kind, header, lines, end = rng.choice(RAW_UNITS)
         lines = list(lines)
         if lines and rng.random() < 0.8:
@@ -217,7 +226,7 @@ def run_units(chk, judge, P, stats, seen, pending):
                    "model and FORD disagree on a small unit", stats, seen, pending)
     # (4) abstract units in random spellings
     ucases = []
-    for _ in range(300 if quick else 6000):
+    for _ in range(500 if quick else 8000):
         u = G.gen_unit(rng)
         sp = G.gen_uspell(rng, u, plain=rng.random() < 0.15)
         header, body, end = G.render_header(sp, u), G.render_body(sp, u["decls"]), G.render_end(sp, u)
@@ -238,6 +247,72 @@ def run_units(chk, judge, P, stats, seen, pending):
     return len(rcases), len(ucases), unm
 
 
+def witnesses(chk, P):
+    """replay the witness of every recorded finding on the implementation (KNOWN-FINDING lines)"""
+    def mv(*lines):
+        o = P.module_vars(list(lines))
+        return {v["name"]: v for v in o[1]} if o[0] == "ok" else o
+
+    def un(kind, header, lines, end):
+        o = P.unit(kind, header, lines, end)
+        return o[1] if o[0] == "ok" else None
+    a = mv("doubleprecision x", "double precision y")
+    chk.known("double-without-blank", isinstance(a, dict) and a["x"]["vartype"] != a["y"]["vartype"])
+    b = mv("character * 10 c")
+    chk.known("blank-after-star", not (isinstance(b, dict) and "c" in b and b["c"]["strlen"] == "10"))
+    c = mv("character(len=n+1) c")
+    chk.known("len-expression-truncated", isinstance(c, dict) and c["c"]["strlen"] != "n+1")
+    d = mv("real(kind=selected_real_kind(6,37)) r")
+    chk.known("kind-comma-truncated", isinstance(d, dict) and d["r"]["kind"] != "selected_real_kind(6,37)")
+    e = mv("integer, TARGET :: w")
+    chk.known("attribute-text-spelling", isinstance(e, dict) and e["w"]["attribs"] == ["TARGET"])
+    f = mv("real, dimension(3) :: a", "real :: b(3)")
+    chk.known("dimension-attribute-vs-array-spec", isinstance(f, dict) and f["a"]["dimension"] != f["b"]["dimension"])
+    g = un("subroutine", "subroutine s(b, d)", ["integer b", "optional b", "real d", "intent(in out) d",
+                                               "character(len=5) str", "parameter (str = 'a  b')"], "end subroutine")
+    chk.known("optional-statement", bool(g) and not g["args"][0]["optional"])
+    chk.known("intent-in-out-statement", bool(g) and g["args"][1]["intent"] != "inout")
+    chk.known("parameter-statement", bool(g) and not g["vars"][0]["parameter"])
+    h = un("function", "function f() result(r)", ["real r", "dimension r(3)"], "end function")
+    chk.known("result-attribute-statements-ignored", bool(h) and h["retvar"]["attribs"] == [] and h["retvar"]["dimension"] == "")
+    i = un("function", "real(WP) function f()", [], "end function")
+    chk.known("prefix-type-lower-cased", bool(i) and i["retvar"]["kind"] == "wp")
+    j = un("function", "type(module_t) function f3()", [], "end function")
+    chk.known("prefix-keyword-inside-type", bool(j) and j["attribs"] == ["module"])
+
+
+def replay_part(chk, rep, judge=None):
+    """replay of a violation recorded by run_part; returns None when the replay file is not one of this part's"""
+    judge = judge or chk.coq_judge
+    P = I.Parser()
+    try:
+        if "string" in rep:
+            o = I.parse_type_direct(rep["string"])
+            print("ford parse_type:", o)
+            res = judge(IMPORTS, "str * ipt", "judge_ptype", [f"({G.cstr(rep['string'])}, {ipt_coq(o)})"])
+        elif "declaration" in rep:
+            out = P.module_vars([rep["declaration"]])
+            print("ford:", json.dumps(out)[:2000])
+            g = header_groups("module", "module m")
+            res = judge(IMPORTS, "header * list str * iunit", "judge_unit",
+                        [f"({G.header_coq('module', g)}, {G.cstrs([rep['declaration']])}, "
+                         f"{iunit_coq(['ok', {'attribs': [], 'args': [], 'retvar': None, 'vars': out[1]}] if out[0] == 'ok' else out)})"])
+        elif "header" in rep:
+            header, lines = rep["header"], rep["lines"]
+            kind = "module" if header.lower().startswith("module") else ("function" if "function" in header.lower() else "subroutine")
+            g = header_groups(kind, header)
+            out = P.unit(kind, header, lines, "end " + kind)
+            print("ford:", json.dumps(out)[:2000])
+            res = judge(IMPORTS, "header * list str * iunit", "judge_unit",
+                        [f"({G.header_coq(kind, g)}, {G.cstrs(lines)}, {iunit_coq(out)})"])
+        else:
+            return None
+        print("judge code (bit0 model!=FORD):", res)
+        return 1 if res else 0
+    finally:
+        P.close()
+
+
 def run_part(chk, judge=None):
     """everything except chk.build / chk.props"""
     judge = judge or chk.coq_judge
@@ -246,7 +321,7 @@ def run_part(chk, judge=None):
     P = I.Parser()
     try:
         # (1) parse_type called directly
-        strings = list(PTYPE_STRINGS) + gen_ptype_strings(rng, 300 if quick else 6000)
+        strings = list(PTYPE_STRINGS) + gen_ptype_strings(rng, 600 if quick else 8000)
         strings = [x for x in dict.fromkeys(strings) if core.is_ascii(x) and "\n" not in x]
         outs = [I.parse_type_direct(x) for x in strings]
         for x, o in zip(strings, outs):
@@ -264,7 +339,7 @@ def run_part(chk, judge=None):
             chk.traces += len(strings) - unm
         # (2) abstract declarations in random spellings, observed as the variables of a module
         cases = []
-        for _ in range(500 if quick else 10000):
+        for _ in range(900 if quick else 12000):
             d = G.gen_decl(rng)
             sp = G.gen_dspell(rng, d, plain=rng.random() < 0.15)
             text = G.render_decl(sp, d)
@@ -306,6 +381,7 @@ def run_part(chk, judge=None):
                 if mismatch and not outside:
                     pending.append(("broken-correspondence", dict(payload, what="model and FORD disagree on a declaration"), False))
         nraw, nunits, unm2 = run_units(chk, judge, P, stats, seen, pending)
+        witnesses(chk, P)
         for kind, payload, found in sorted(pending, key=lambda x: not x[2]):
             chk.violation(kind, payload, found)
         chk.extra["c01types"] = {"parse_type_strings": len(strings), "declarations": len(cases), "raw_units": nraw,
